@@ -545,12 +545,8 @@ func c12Sig(in *c12In) string {
 		return "contract-violation:wrote-and-error-status"
 	case s.touched && s.flushBuf:
 		return "templates-buffering:flush"
-	case s.touched && s.earlyFlush && in.Cfg.Gzip && in.AE:
-		return "gzip:flush-before-header"
 	case s.touched && s.earlyFlush:
 		return "flush-before-header"
-	case s.touched && s.multiWH && in.Cfg.Gzip && in.AE:
-		return "gzip:repeated-writeheader"
 	case s.touched && s.buffering && in.Ret >= 300:
 		return "templates-buffering:returned-3xx-after-writing"
 	case s.touched && s.buffering && in.Err:
